@@ -233,3 +233,89 @@ def run_sibling(prog, cfg):
                                   f'directly calls or is called by): {cfg["consequence"]}')
     res.floor('(function, struct) groups', n_groups, cfg.get('floor_sibling', 1))
     return res
+
+
+# ---------------------------------------------------------------------------------------------------------------------
+# TUPLE-COMPONENT (C02): SIBLING works at field granularity; a field whose type is a tuple (`break_collector:
+# Option<(name, type, value)>`) is "read" as soon as any component is. For functions that SIBLING recognises as walkers of
+# a struct (they read >= 60 % of its operand-bearing fields), the operand-bearing *components* of tuple-typed fields must be
+# read as well: looking at the collector's name instead of its value misses a use of a variable.
+
+def run_tuple_components(prog, tier, repo, crate='samlang_optimization', target='samlang_ast::mir::Expression'):
+    from ..typewalk import Walk, strip_containers
+    from ..core import places_read
+    from ..dataflow import root_local
+    res = RuleResult('TUPLE-COMPONENT', 'C02: a pass that walks the operand-bearing fields of a struct also reads the operand-bearing '
+                     'components of its tuple-typed fields')
+    is_target = lambda t: t.k == 'adt' and t.name == target
+    walk = Walk(prog, is_target)
+    # structs with tuple-typed operand-bearing fields
+    cands = {}
+    for a in prog.adts.values():
+        if not (a.crate in (crate, 'samlang_ast')) or a.kind != 'struct':
+            continue
+        for fi, f in enumerate(a.variants[0].fields):
+            t = strip_containers(f.ty)
+            if t.k == 'tup' and any(walk.reaches_target(x) for x in t.args):
+                cands[(a.id, 0, fi)] = [k for k, x in enumerate(t.args) if walk.reaches_target(x)]
+    n = 0
+    for (aid, vi, fi), need in sorted(cands.items()):
+        adt = prog.adts[aid]
+        bearing = [k for k, f in enumerate(adt.variants[0].fields) if walk.reaches_target(f.ty)]
+        if len(bearing) < 2:
+            continue
+        for b in sorted(prog.bodies.values(), key=lambda x: x.name):
+            if b.crate != crate or b.kind == 'closure' or '::tests' in b.name:
+                continue
+            own = [b] + [prog.bodies[c] for c in prog.closures_of.get(b.id, []) if c in prog.bodies]
+            fields_read = set()
+            comps = set()
+            whole = False
+            for x in own:
+                for pl, bi, line in places_read(x):
+                    r, p0 = root_local(x, pl.local)
+                    full = tuple(p0) + tuple(e for e in pl.proj if e[0] in ('f', 't', 'v'))
+                    for k, e in enumerate(full):
+                        if e[0] == 'f' and e[1] == aid and e[2] == vi:
+                            fields_read.add(e[3])
+                            if e[3] == fi:
+                                rest = [z for z in full[k + 1:]]
+                                ts = [z[1] for z in rest if z[0] == 't']
+                                # components may also be addressed as fields of the tuple (`.0`) after a Some downcast
+                                fs_ = [z[3] for z in rest if z[0] == 'f' and not (prog.adts.get(z[1]) and prog.adts[z[1]].name.startswith('samlang'))]
+                                if ts:
+                                    comps.add(ts[0])
+                                elif not rest:
+                                    pass
+                # a closure parameter that is the tuple itself (`is_some_and(|v| .. v.2 ..)`)
+                if x.kind == 'closure':
+                    for i in range(2, x.nargs + 1):
+                        t = strip_containers(x.locals[i])
+                        ft = strip_containers(adt.variants[0].fields[fi].ty)
+                        if t.k == 'tup' and ft.k == 'tup' and len(t.args) == len(ft.args) and [a_.s for a_ in t.args] == [a_.s for a_ in ft.args]:
+                            for pl, bi, line in places_read(x):
+                                r, p0 = root_local(x, pl.local)
+                                full = tuple(p0) + tuple(e for e in pl.proj if e[0] in ('f', 't', 'v'))
+                                if r == i:
+                                    ts = [z[1] for z in full if z[0] == 't']
+                                    if ts:
+                                        comps.add(ts[0])
+            if fi not in fields_read:
+                continue
+            got = [k for k in bearing if k in fields_read]
+            if len(got) < 2 or len(got) < 0.6 * len(bearing):
+                continue
+            if not comps:
+                continue        # the tuple is only passed on / matched as a whole
+            n += 1
+            fname = adt.variants[0].fields[fi].name
+            key = f'tuple:{b.name}:{adt.name.split("::")[-1]}.{fname}'
+            missing = [k for k in need if k not in comps]
+            if not missing:
+                res.ok(key, b.loc(), f'reads component(s) {sorted(comps)} of `{fname}` including the operand-bearing {need}')
+            else:
+                res.violation(key, b.loc(), f'{b.name} walks the operand-bearing fields of {adt.name.split("::")[-1]} and looks into '
+                              f'`{fname}`, but only at component(s) {sorted(comps)}, not at the operand-bearing component(s) {missing}: '
+                              f'a variable used there is not seen, and the pass removes or rewrites its definition')
+    res.analysed['walker_tuple_reads'] = n
+    return [res]
